@@ -19,6 +19,9 @@ pub enum Deco {
     LineComment(u8),
     /// (text index, number of lines, keep the original blank around it)
     BlockComment(u8, u8, bool),
+    /// two comments without anything between them, the second one ending the line:
+    /// `/* a *//* b */` or `/* a */// b`; `glued` = no blank before the first one either
+    Adjacent { first: u8, second: u8, line: bool, glued: bool },
 }
 
 #[derive(Debug, Clone, Serialize, Deserialize)]
@@ -204,6 +207,24 @@ pub fn render(src: &str, decos: &[Deco]) -> Rendered {
                         tricky = true;
                     }
                 }
+                Deco::Adjacent { first, second, line, glued } => {
+                    let t1 = TEXTS[first as usize % TEXTS.len()];
+                    let t2 = TEXTS[second as usize % TEXTS.len()];
+                    // the first comment must not contain `//` or `/*` tricks of its own here: the point
+                    // is the second comment starting right at the `*/`
+                    let t1 = if t1.contains("*/") || t1.contains("//") || t1.contains("/*") { "set a" } else { t1 };
+                    let t2 = if t2.contains("*/") { "was 0" } else { t2 };
+                    let both_words = ident_like(&toks[i - 1].text) && ident_like(&t.text);
+                    if !glued || both_words {
+                        out.push_str(if orig.is_empty() { " " } else { orig });
+                    }
+                    if line {
+                        out.push_str(&format!("/* {} */// {}\n", t1, t2));
+                    } else {
+                        out.push_str(&format!("/* {} *//* {} */\n", t1, t2));
+                    }
+                    tricky = true;
+                }
                 Deco::BlockComment(k, lines, keep) => {
                     let text = TEXTS[k as usize % TEXTS.len()];
                     let mut c = String::from("/*");
@@ -268,6 +289,7 @@ fn gen_deco(g: &mut G, ex: &Excl) -> Deco {
             let replace = g.chance(1, 4) && !ex.has("comment_as_only_separator");
             Deco::BlockComment(k, 1 + g.below(4) as u8, !replace)
         }
+        11 => Deco::Adjacent { first: g.below(TEXTS.len()) as u8, second: g.below(TEXTS.len()) as u8, line: g.chance(1, 2), glued: g.chance(1, 2) },
         _ => Deco::None,
     }
 }
